@@ -38,6 +38,9 @@ pub struct ServerCodec {
 
 impl ServerCodec {
     fn decode_packet(&mut self, src: &mut BytesMut) -> Result<Option<InboundIn>, anyhow::Error> {
+        if trojan::udp_frame_len(src)?.is_none() {
+            return Ok(None);
+        }
         let peer_addr = address::decode(src)?;
         let len = src.get_u16();
         src.advance(trojan::CR_LF.len());
@@ -56,13 +59,16 @@ impl Decoder for ServerCodec {
         }
         match self.state {
             CodecState::Header => {
-                if src.remaining() < 60 || src.remaining() < 59 + address::try_decode_at(src, 59)? {
+                if src.remaining() < 61 || src.remaining() < 59 + address::try_decode_at(src, 59)? + trojan::CR_LF.len() {
                     return Ok(None);
                 }
                 if src[56] != b'\r' {
                     bail!("not trojan protocol");
                 }
                 let key = src.split_to(56);
+                if !key.is_ascii() {
+                    bail!("not a valid password")
+                }
                 let key = hex::decode(unsafe { str::from_utf8_unchecked(&key) })?;
                 if self.key != key[..self.key.len()] {
                     bail!("not a valid password")
